@@ -409,11 +409,11 @@ func wireOrder(p []byte, keys map[byte]bool) []byte {
 		left[k] = true
 	}
 	o := p[240:]
-	for len(o) >= 2 && left[o[0]] {
-		if len(o) < 2+int(o[1]) {
+	for len(o) >= 1 && left[o[0]] {
+		order = append(order, o[0]) // also an option cut off by the end of the buffer (nil return): it was the next one
+		if len(o) < 2 || len(o) < 2+int(o[1]) {
 			break
 		}
-		order = append(order, o[0])
 		delete(left, o[0])
 		o = o[2+int(o[1]):]
 	}
@@ -457,7 +457,11 @@ func dhcpOnce(a []string) (obs string, wire []byte) {
 	for _, kv := range kvs {
 		keyset[kv.k] = true
 	}
-	wire = wireOrder(out, keyset)
+	if out == nil && c >= 300 {
+		wire = wireOrder(full, keyset) // nil return: the options that fitted are in the buffer
+	} else {
+		wire = wireOrder(out, keyset)
+	}
 	// Go-side oracle in the domain "distinct keys other than 0/255, values <= 255 bytes, everything fits"
 	size := 3
 	okDom := c >= 300 && (a[5] != "T" || len(ch) == 6) && (a[9] != "T" || len(xid) == 4)
